@@ -98,6 +98,105 @@ def pushAllDeltaC (gen : C03.Gen) (v : C03.Srv) : List Ty → POut
 
 def pushConnDeltaC (gen : C03.Gen) (v : C03.Srv) : POut := pushAllDeltaC gen v C03.pushOrder
 
+/-! ### What the generator is told besides the watched resource: the `PushRequest`
+
+`req.Delta` (`Subscribed`, `Unsubscribed`, `InitialResourceVersions`) and `req.Forced`.  For the types whose
+generator manages the names itself (WDS, WL: `requiresResourceNamesModification`) the watched resource is NOT
+narrowed and `req.Delta` is the only way the generator learns what changed; `InitialResourceVersions` is
+released before generation for every other type. -/
+
+structure CallInfo where
+  sub    : List String := []
+  unsub  : List String := []
+  init   : List String := []
+  forced : Bool := true
+  deriving DecidableEq, Repr
+
+/-- `processRequest`: `Delta = ResourceDelta{Subscribed: added}`, `Forced`. -/
+def infoSotw (sub : List String) : CallInfo := { sub := sub }
+
+/-- `processDeltaRequest`: the request's whole subscribe set, its unsubscribes without the synthetic `*`, the
+    client's retained versions only for generator-managed types, `Forced`. -/
+def infoDelta (r : DReq) : CallInfo :=
+  { sub := (deltaWatched [] r).1, unsub := r.unsub.filter (· ≠ "*"), init := if r.ty.managed then r.init else [] }
+
+/-- `forceEDSPush` and the calls of a push event: no delta. -/
+def infoPush (forced : Bool) : CallInfo := { forced := forced }
+
+/-! ### Generator errors
+
+A generator may fail (`Generate` returns an error): `pushXds` / `pushDeltaXds` return it, nothing is sent, the
+watch table is left as the classification made it, a push loop stops, and the handler's caller (`Stream`) ends
+the stream.  `errs t` = the generator of `t` fails.  With no failing generator these are the functions above. -/
+
+structure POutE where
+  out : POut
+  err : Bool        -- the handler returned an error (generator error or failed send)
+
+def failedSend (v : C03.Srv) (p : C03.Srv × Option C03.Wire × Bool) : Bool := p.2.2 && v.fail
+
+def procSotwE (grpc : Bool) (errs : Ty → Bool) (gen : C03.Gen) (v : C03.Srv) (r : Req) : Option POutE :=
+  match shouldRespond v.st r with
+  | .crash => none
+  | .out false _ s' => some { out := { srv := { v with st := s' }, sent := [], calls := [] }, err := false }
+  | .out true sub s' =>
+    let sub' := if grpc then [] else sub
+    let c := (askedSotw s' r.ty sub').toList
+    if errs r.ty && !c.isEmpty then some { out := { srv := { v with st := s' }, sent := [], calls := c }, err := true }
+    else
+      let p := C03.pushSotwOne gen { v with st := s' } r.ty sub'
+      some { out := { srv := p.1, sent := p.2.1.toList, calls := c }, err := p.2.2 }
+
+def pushAllSotwE (errs : Ty → Bool) (gen : C03.Gen) (v : C03.Srv) : List Ty → POutE
+  | [] => { out := { srv := v, sent := [], calls := [] }, err := false }
+  | t :: ts =>
+    let c := (askedSotw v.st t []).toList
+    if errs t && !c.isEmpty then { out := { srv := v, sent := [], calls := c }, err := true }
+    else
+      let p := C03.pushSotwOne gen v t []
+      if p.2.2 then { out := { srv := p.1, sent := [], calls := c }, err := true }
+      else
+        let o := pushAllSotwE errs gen p.1 ts
+        { out := { srv := o.out.srv, sent := p.2.1.toList ++ o.out.sent, calls := c ++ o.out.calls }, err := o.err }
+
+def procDeltaE (errs : Ty → Bool) (gen : C03.Gen) (v : C03.Srv) (r : DReq) : Option POutE :=
+  match shouldRespondDelta v.st r with
+  | .crash => none
+  | .out false s' => some { out := { srv := { v with st := s' }, sent := [], calls := [] }, err := false }
+  | .out true s' =>
+    let subs := (deltaWatched [] r).1
+    let unsub := r.unsub.filter (· ≠ "*")
+    let c1 := (askedDelta s' r.ty subs unsub).toList
+    if errs r.ty && !c1.isEmpty then some { out := { srv := { v with st := s' }, sent := [], calls := c1 }, err := true }
+    else
+      let p1 := C03.pushDeltaOne gen { v with st := s' } r.ty subs unsub
+      if p1.2.2 || r.ty ≠ .cds then some { out := { srv := p1.1, sent := p1.2.1.toList, calls := c1 }, err := p1.2.2 }
+      else
+        let c2 := (askedDelta p1.1.st .eds [] []).toList
+        if errs .eds && !c2.isEmpty then
+          some { out := { srv := p1.1, sent := p1.2.1.toList, calls := c1 ++ c2 }, err := true }
+        else
+          let p2 := C03.pushDeltaOne gen p1.1 .eds [] []
+          some { out := { srv := p2.1, sent := p1.2.1.toList ++ p2.2.1.toList, calls := c1 ++ c2 }, err := p2.2.2 }
+
+def pushAllDeltaE (errs : Ty → Bool) (gen : C03.Gen) (v : C03.Srv) : List Ty → POutE
+  | [] => { out := { srv := v, sent := [], calls := [] }, err := false }
+  | t :: ts =>
+    let c := (askedDelta v.st t [] []).toList
+    if errs t && !c.isEmpty then { out := { srv := v, sent := [], calls := c }, err := true }
+    else
+      let p := C03.pushDeltaOne gen v t [] []
+      if p.2.2 then { out := { srv := p.1, sent := [], calls := c }, err := true }
+      else
+        let o := pushAllDeltaE errs gen p.1 ts
+        { out := { srv := o.out.srv, sent := p.2.1.toList ++ o.out.sent, calls := c ++ o.out.calls }, err := o.err }
+
+/-- A debug request (`strings.HasPrefix(TypeUrl, DebugType)`): no classification, no watch; the generator is handed an
+    ephemeral watched resource with the request's names, its answer (if any) is sent and no nonce is recorded. -/
+def procDebug (errs : Bool) (resNil : Bool) (v : C03.Srv) : Bool × Bool :=
+  -- (a response is sent, the handler returns an error)
+  if errs then (false, true) else if resNil then (false, false) else if v.fail then (false, true) else (true, false)
+
 /-! ### Generators of the `proc` / `dproc` streams
 
 A scripted answer per type; in `echo` mode the generator answers with one resource (version 1) for
@@ -105,8 +204,9 @@ every name of the watched resource it was handed, so that the response on the wi
 generator was asked for. -/
 
 structure Script where
-  echo : Bool := true
-  out  : C03.GenOut := { resNil := false, delNil := true }
+  echo  : Bool := true
+  out   : C03.GenOut := { resNil := false, delNil := true }
+  fails : Bool := false      -- the generator returns an error
 
 def echoRes (wn : List String) : List C03.Res := wn.map (fun n => (n, 1))
 
